@@ -1609,4 +1609,185 @@ theorem ea_family_accept {n : Nat} {s : DsStep.S} {ms : Spec.DSMon.S} (h : Rel n
     case eaExport reclen => exact ea_export_accept h hs reclen hok
     case eaFree => exact ea_free_accept h hs
 
+/-! ## sequential pointer map: the monitor accepts the model's answers -/
+
+theorem smAdmit_not_oob {i i' : SmIdeal} {op : SmOp} {a : SmAns} (h : smAdmit i op a = some i') : a.st ≠ .oob := by
+  intro hst
+  cases op <;> simp [smAdmit, hst] at h
+
+theorem sm_step_refused (x : SeqMap.SM) (e : SmOp) (m : Mem) :
+    (SeqMap.step x e m).1.refused = ((SeqMap.step x e m).2.2.refusals != m.refusals) := by
+  cases e <;> simp only [SeqMap.step] <;> (repeat' split) <;> simp_all [SeqMap.ans]
+
+def numShown : SmOp → Bool
+  | .add _ | .getmin => true | _ => false
+def ptrShown : SmOp → Bool
+  | .get _ => true | _ => false
+
+/-- fields of a map answer the line does not show are 0 -/
+theorem sm_step_zero (x : SeqMap.SM) (e : SmOp) (m : Mem) :
+    (numShown e = false → (SeqMap.step x e m).1.num = 0) ∧
+    (ptrShown e = false → (SeqMap.step x e m).1.ptr = 0) := by
+  cases e <;> simp only [SeqMap.step, numShown, ptrShown] <;> (repeat' split) <;> simp_all [SeqMap.ans]
+
+theorem smJudge_out (ms : Spec.DSMon.S) (i i' : SmIdeal) (e : SmOp) (an : SmAns) (x' : SeqMap.SM) (m m' : Mem)
+    (why : String) (hst : an.st ≠ .oob) (hrf : an.refused = decide (rf m m' > 0))
+    (hz1 : numShown e = false → an.num = 0) (hz2 : ptrShown e = false → an.ptr = 0)
+    (hadm : smAdmit i e an = some i') :
+    smJudge ms i e (smOutOf e an x' m m').ans why = ({ ms with sm := some i' }, none) := by
+  obtain ⟨st, refused, num, ptr⟩ := an
+  simp only at hst hrf hz1 hz2
+  subst hrf
+  cases e <;> cases st <;> simp_all [smOutOf, Out.ans, smJudge, stOf, headOfSt, numShown, ptrShown]
+
+theorem smOutOf_not_skip (e : SmOp) (an : SmAns) (x' : SeqMap.SM) (m m' : Mem) :
+    (smOutOf e an x' m m').ans.isJust .skip = false := by
+  obtain ⟨st, refused, num, ptr⟩ := an
+  cases e <;> cases st <;> simp [smOutOf, Out.ans, Ans.isJust, headOfSt]
+
+theorem mon_sm (ms : Spec.DSMon.S) (i : SmIdeal) (hms : ms.sm = some i) (op : Op) (e : SmOp)
+    (he : smOpOf op = some e) (A : Ans) : ∃ why, monStep ms op A = smJudge ms i e A why := by
+  cases op <;> simp only [smOpOf, reduceCtorEq, Option.some.injEq] at he <;> subst he
+  case smAdd p => exact ⟨_, by simp only [monStep, hms]; rfl⟩
+  case smGet j => exact ⟨_, by simp only [monStep, hms]; rfl⟩
+  case smDel j => exact ⟨_, by simp only [monStep, hms]; rfl⟩
+  case smMin => exact ⟨_, by simp only [monStep, hms]; rfl⟩
+
+theorem sm_step_live (x : SeqMap.SM) (e : SmOp) (m : Mem) (h : SeqMap.MInv x) (hc : smContract e)
+    (hq : (x.q.offset + x.q.len + 1) * 8 ≤ EArray.SIZE_MAX) (hn : x.offset + x.len + 1 ≤ SeqMap.INT64_MAX) :
+    (SeqMap.step x e m).2.2.live + bufBlocks x.q.ea = m.live + bufBlocks (SeqMap.step x e m).2.1.q.ea := by
+  cases e with
+  | add p =>
+    have hs := (SeqMap.add_spec x p m h hc.1 hc.2 hq hn).2.2
+    simp only [SeqMap.step]
+    rcases hres : SeqMap.add x p m with ⟨r, x', m'⟩
+    rw [hres] at hs
+    cases r <;> exact hs
+  | get i => simp only [SeqMap.step]; split <;> rfl
+  | delete i =>
+    have hs := (SeqMap.delete_spec x i m h).2.2.2.2.2
+    simp only [SeqMap.step]
+    rcases hres : SeqMap.delete x i m with ⟨st, x', m'⟩
+    rw [hres] at hs; exact hs
+  | getmin => rfl
+
+theorem sm_accept_core {n : Nat} {s : DsStep.S} {ms : Spec.DSMon.S} (h : Rel n s ms)
+    (hn : (n : Int) < SeqMap.INT64_MAX) {x : SeqMap.SM}
+    (hs : s.sm = some x) {op : Op} {e : SmOp} (he : smOpOf op = some e) (hc : smContract e) : StepGoal n s ms op := by
+  have hsm := h.sm
+  have hmp := h.mp
+  rw [hs] at hsm hmp
+  obtain ⟨hinv, hcap, hnum, hms⟩ := hsm
+  have hq : (x.q.offset + x.q.len + 1) * 8 ≤ EArray.SIZE_MAX := by
+    have := eq_small hinv.1.q hcap (by rw [hinv.1.rl]; decide)
+    rw [hinv.1.rl] at this; exact this
+  have hn' : x.offset + x.len + 1 ≤ SeqMap.INT64_MAX := by omega
+  obtain ⟨hinv', hadm, _, hnum'⟩ := SeqMap.mstep_ok x e s.m hinv hc hq hn'
+  have hlive := sm_step_live x e s.m hinv hc hq hn'
+  have hno := smAdmit_not_oob hadm
+  have frame := sm_step_frame x e s.m
+  have hz := sm_step_zero x e s.m
+  unfold StepGoal
+  rw [sm_stepOp s x hs op e he hno]
+  simp only
+  obtain ⟨why, hmon⟩ := mon_sm ms (SeqMap.abs x) hms op e he
+    (smOutOf e (SeqMap.step x e s.m).1 (SeqMap.step x e s.m).2.1 s.m (SeqMap.step x e s.m).2.2).ans
+  rw [hmon, smJudge_out ms _ _ e _ _ _ _ why hno (by rw [sm_step_refused, rf_pos frame.1]) hz.1 hz.2 hadm]
+  refine ⟨rfl, ⟨h.capped.ext frame.1, h.ea, h.eq, ⟨hinv', frame.2 h.capped hcap, by omega, rfl⟩, ?_, h.inUse⟩⟩
+  refine R_transport hmp frame.1 ?_
+  simp only [smBlk]
+  omega
+
+theorem sm_absent_accept {n : Nat} {s : DsStep.S} {ms : Spec.DSMon.S} (h : Rel n s ms) (hs : s.sm = none) (op : Op)
+    (hop : match op with
+      | .smAdd .. | .smGet .. | .smDel .. | .smMin | .smFree => True
+      | _ => False) : StepGoal n s ms op := by
+  have hms : ms.sm = none := by have := h.sm; rw [hs] at this; exact this
+  cases op <;> simp only at hop <;>
+    exact word_accept h .skip (by simp [stepOp, hs]) (by simp [monStep, hms, okOr, isJust_skip, headOfWord])
+
+theorem sm_free_accept {n : Nat} {s : DsStep.S} {ms : Spec.DSMon.S} (h : Rel n s ms) {x : SeqMap.SM}
+    (hs : s.sm = some x) : StepGoal n s ms .smFree := by
+  have hsm := h.sm
+  have hmp := h.mp
+  rw [hs] at hsm hmp
+  obtain ⟨hinv, hcap, hnum, hms⟩ := hsm
+  unfold StepGoal
+  simp only [stepOp, hs, monStep, hms, Out.ans]
+  refine ⟨by decide, ⟨h.capped.ext (sm_free_ext _ _), h.ea, h.eq, rfl, ?_, h.inUse⟩⟩
+  refine R_transport hmp (sm_free_ext _ _) ?_
+  simp only [smBlk]
+  rw [SeqMap.free_live]; omega
+
+def smFreed (s : DsStep.S) : Mem := match s.sm with | some x => SeqMap.free x s.m | none => s.m
+
+theorem sm_release {n : Nat} {s : DsStep.S} {ms : Spec.DSMon.S} (h : Rel n s ms) :
+    Ext s.m (smFreed s) ∧ MPool.R s.mp (smFreed s) s.inUse (eaBlk s.ea + eqBlk s.eq) := by
+  have hmp := h.mp
+  unfold smFreed
+  cases hs : s.sm with
+  | none => rw [hs] at hmp; simp only [smBlk, Int.add_zero] at hmp; exact ⟨Ext.refl _, hmp⟩
+  | some a =>
+    rw [hs] at hmp
+    refine ⟨sm_free_ext _ _, R_transport hmp (sm_free_ext _ _) ?_⟩
+    simp only [smBlk]; rw [SeqMap.free_live]; omega
+
+theorem stepOp_smInit (s : DsStep.S) :
+    stepOp s .smInit =
+      match SeqMap.init (smFreed s) with
+      | (none, m') => ({ s with m := m', sm := none }, .initFail (rf (smFreed s) m') (l2c (smFreed s) m'))
+      | (some x, m') => ({ s with m := m', sm := some x }, .smInit (rf (smFreed s) m') (smL2 x (smFreed s) m')) := by
+  simp only [stepOp]; rfl
+
+theorem sm_init_accept {n : Nat} {s : DsStep.S} {ms : Spec.DSMon.S} (h : Rel n s ms) : StepGoal n s ms .smInit := by
+  obtain ⟨hext0, hmp0⟩ := sm_release h
+  unfold StepGoal
+  rw [stepOp_smInit s]
+  generalize smFreed s = m0 at *
+  have hc0 := h.capped.ext hext0
+  have hsp := SeqMap.init_spec m0
+  have hfr := sm_init_frame m0
+  rcases hres : SeqMap.init m0 with ⟨ox, m'⟩
+  rw [hres] at hsp hfr
+  simp only at hsp hfr
+  have hext := hext0.trans hfr.1
+  cases ox with
+  | none =>
+    dsimp only
+    simp only [Out.ans]
+    simp only [monStep]
+    have : (some (rf m0 m')).getD 0 > 0 := by simp only [Option.getD_some, rf]; omega
+    rw [if_pos this]
+    refine ⟨rfl, ⟨h.capped.ext hext, h.ea, h.eq, rfl, ?_, h.inUse⟩⟩
+    refine R_transport hmp0 hfr.1 ?_
+    simp only [smBlk]; omega
+  | some x =>
+    obtain ⟨hinv, habs, hoff, hlen, _, _, hlive, hrf⟩ := hsp
+    have hcap := hfr.2 x rfl hc0
+    dsimp only
+    simp only [Out.ans]
+    simp only [monStep]
+    refine ⟨trivial, ⟨h.capped.ext hext, h.ea, h.eq, ⟨hinv, hcap, by rw [hoff, hlen]; simp; omega, by rw [habs]⟩, ?_, h.inUse⟩⟩
+    refine R_transport hmp0 hfr.1 ?_
+    simp only [smBlk]; omega
+
+theorem sm_family_accept {n : Nat} {s : DsStep.S} {ms : Spec.DSMon.S} (h : Rel n s ms)
+    (hn : (n : Int) < SeqMap.INT64_MAX) (op : Op) (hok : OpOk op)
+    (hop : match op with
+      | .smInit | .smAdd .. | .smGet .. | .smDel .. | .smMin | .smFree => True
+      | _ => False) : StepGoal n s ms op := by
+  cases hs : s.sm with
+  | none =>
+    cases op <;> simp only at hop
+    case smInit => exact sm_init_accept h
+    all_goals exact sm_absent_accept h hs _ trivial
+  | some x =>
+    cases op <;> simp only at hop
+    case smInit => exact sm_init_accept h
+    case smAdd p => exact sm_accept_core h hn hs (e := .add p) rfl hok
+    case smGet i => exact sm_accept_core h hn hs (e := .get i) rfl trivial
+    case smDel i => exact sm_accept_core h hn hs (e := .delete i) rfl trivial
+    case smMin => exact sm_accept_core h hn hs (e := .getmin) rfl trivial
+    case smFree => exact sm_free_accept h hs
+
 end Percival.Proofs.DsStep
